@@ -228,7 +228,7 @@ def run_inputs(chk, runner, inputs, batch, script_every):
         ln = len(item[0]['src'])
         return 300 + ln * 0.02 * len(item)   # ms; far above the normal cost per byte and front end under ASan
 
-    results = core.run_items(runner, prefix, items, batch=batch, base_cpu_ms=5000, item_cpu_ms=cpu, counters=chk.counters, max_deaths=(60 if core.tier() == 'quick' else 400))   # inputs that reach recorded defects die too; the cap only guards against a tree that is broken throughout
+    results = core.run_items(runner, prefix, items, batch=batch, base_cpu_ms=5000, item_cpu_ms=cpu, counters=chk.counters, max_deaths=(60 if chk.tier == 'quick' else 400))   # inputs that reach recorded defects die too; the cap only guards against a tree that is broken throughout
     for (label, path, text), ws, r, item in zip(inputs, flags, results, items):
         chk.evaluations += 1
         chk.sig(label.split('@')[0] + ':' + os.path.basename(path) + ':' + str(len(text)) + ':' + str(hash(text) & 0xffff))
